@@ -10,15 +10,36 @@ package main
 // the specification (`MW.Props.C20.progress`): done.
 
 import (
+	"errors"
 	"fmt"
 	"strconv"
 	"strings"
 	"time"
 )
 
+var errProtoInjected = errors.New("injected storage fault")
+
+// takeFault: should this Commit fail? (only commits made from the worker goroutine, while faults are pending)
+func (g *protoGate) takeFault() bool {
+	g.mu.Lock()
+	pending := g.failWorker > 0
+	g.mu.Unlock()
+	if !pending || protoCallerRole() != "worker" {
+		return false
+	}
+	g.mu.Lock()
+	defer g.mu.Unlock()
+	if g.failWorker == 0 {
+		return false
+	}
+	g.failWorker--
+	g.failed++
+	return true
+}
+
 const protoLiveWait = 40 * time.Second
 
-func (x *protoExec) live(task, who, ns string) string {
+func (x *protoExec) live(task, who, ns string, faults int) string {
 	e := x.e
 	if !x.started {
 		return "bad-op"
@@ -37,6 +58,9 @@ func (x *protoExec) live(task, who, ns string) string {
 			return "bad-op"
 		}
 	case "none":
+		if faults > 0 {
+			return "bad-op"
+		}
 	default:
 		return "bad-op"
 	}
@@ -52,6 +76,14 @@ func (x *protoExec) live(task, who, ns string) string {
 		x.g.open()
 		return "nogate"
 	}
+	x.g.mu.Lock()
+	x.g.failWorker, x.g.failed = faults, 0
+	x.g.mu.Unlock()
+	defer func() {
+		x.g.mu.Lock()
+		x.g.failWorker = 0
+		x.g.mu.Unlock()
+	}()
 	if r := x.issue(task, who); r != "" {
 		x.g.open()
 		return r
@@ -67,7 +99,16 @@ func (x *protoExec) live(task, who, ns string) string {
 		s := e.Wallets()
 		nb, _, nt := e.wm.VerifQueueLens()
 		if h == want && nb == 0 && nt == 0 && s != "err" && !strings.Contains(s, "importing") && !strings.Contains(s, "removing") {
-			return "done"
+			if faults == 0 {
+				return "done"
+			}
+			x.g.mu.Lock()
+			f := x.g.failed
+			x.g.mu.Unlock()
+			if f != faults {
+				return fmt.Sprintf("nofault %d", f)
+			}
+			return fmt.Sprintf("done %d", f)
 		}
 		if time.Now().After(deadline) {
 			return fmt.Sprintf("TIMEOUT best=%d want=%d queued=%d tasks=%d %s", h, want, nb, nt, s)
@@ -78,7 +119,7 @@ func (x *protoExec) live(task, who, ns string) string {
 
 // genProtoLive: the chain of genProtoHistory, then `live` instead of a stop placement; afterwards the wallet list
 // is read (await) and the wallet stopped.
-func genProtoLive(g *Gen, task string) {
+func genProtoLive(g *Gen, task string, faults int) {
 	l := newLedGen(g, "proto")
 	l.g.Reset()
 	l.op("params", "params 2 3")
@@ -113,7 +154,11 @@ func genProtoLive(g *Gen, task string) {
 	case "import":
 		who = "I1"
 	}
-	l.op("live-"+task, "live %s %s %d", task, who, nLive)
+	if faults > 0 {
+		l.op("livef-"+task, "livef %s %s %d %d", task, who, nLive, faults)
+	} else {
+		l.op("live-"+task, "live %s %s %d", task, who, nLive)
+	}
 	l.op("await", "await")
 	l.op("stop", "stop")
 }
